@@ -63,6 +63,26 @@ func vfPickShapeFrom(quick []vfShape) vfShape {
 	return s[vfPick("shape", 0, len(s)-1)]
 }
 
+// vfPickShapeRecvSide: quick: the focused receive-side family; thorough: the full product of the
+// receive side (delivery queue, reorder buffer, owed acks: 0..2 each) over an empty and a
+// one-segment send side (the send side only matters for the flush Input may trigger).
+func vfPickShapeRecvSide() vfShape {
+	s := vfShapesRecv
+	if vfTier() > 0 {
+		s = nil
+		for a := 0; a <= 1; a++ {
+			for c := 0; c <= 2; c++ {
+				for d := 0; d <= 2; d++ {
+					for e := 0; e <= 2; e++ {
+						s = append(s, vfShape{a, 0, c, d, e})
+					}
+				}
+			}
+		}
+	}
+	return s[vfPick("shape", 0, len(s)-1)]
+}
+
 type vfEmit struct {
 	data []byte
 }
